@@ -528,6 +528,8 @@ class Domain(object):
             saved = state.extra.get(('hexc', node.info['handler']))
             if saved is not None and saved != state.extra.get('exc_src'):
                 state = state.with_extra(exc_src=saved)
+            if node.frame.parent is None:
+                state = state.with_extra(reraised_by=node.info['handler'][2])
             return [(None, self.on_stmt(node, state))]
         if k in ('with-exit', 'yield', 'raise', 'subscript'):
             return [(None, self.on_stmt(node, state))]
